@@ -66,10 +66,28 @@ class Lock:
         self.f.close()
 
 
+def write_coqproject():
+    """_CoqProject lists every .v under theories/ (sorted); regenerated so that adding a file needs no edit."""
+    files = []
+    for root, dirs, fs in os.walk(os.path.join(COQ, "theories")):
+        dirs.sort()
+        for f in sorted(fs):
+            if f.endswith(".v"):
+                files.append(os.path.relpath(os.path.join(root, f), COQ))
+    text = "-R theories Verif\n" + "\n".join(sorted(files)) + "\n"
+    path = os.path.join(COQ, "_CoqProject")
+    old = open(path).read() if os.path.exists(path) else ""
+    if old != text:
+        open(path, "w").write(text)
+        return True
+    return False
+
+
 def ensure_coq():
     """Full .vo build of the development (no -vos). Returns (ok, log)."""
     with Lock("coq"):
-        if not os.path.exists(os.path.join(COQ, "Makefile")):
+        changed = write_coqproject()
+        if changed or not os.path.exists(os.path.join(COQ, "Makefile")):
             rc, out = run(["coq_makefile", "-f", "_CoqProject", "-o", "Makefile"], cwd=COQ)
             if rc != 0:
                 return False, out
@@ -134,11 +152,15 @@ def build_go(scratch, need_harness=True, tags="verif"):
         return None, None, "go build of /repo failed:\n" + out
     hb = None
     if need_harness:
-        hdir = os.path.join(VERIF, "harness")
-        with Lock("harness"):
-            shutil.copyfile(os.path.join(REPO, "go.sum"), os.path.join(hdir, "go.sum"))
-            hb = os.path.join(scratch, "harness")
-            rc, out = run(["go", "build", "-tags", tags, "-o", hb, "./cmd/harness"], cwd=hdir, env=env, timeout=1800)
+        # private copy of the harness module whose go.mod points at the repository under test
+        hdir = os.path.join(scratch, "harness-src")
+        shutil.copytree(os.path.join(VERIF, "harness"), hdir)
+        open(os.path.join(hdir, "go.mod"), "w").write(
+            "module verifharness\n\ngo 1.24\n\nrequire github.com/awalterschulze/goderive v0.0.0\n\n"
+            "replace github.com/awalterschulze/goderive => %s\n" % REPO)
+        shutil.copyfile(os.path.join(REPO, "go.sum"), os.path.join(hdir, "go.sum"))
+        hb = os.path.join(scratch, "harness")
+        rc, out = run(["go", "build", "-tags", tags, "-o", hb, "./cmd/harness"], cwd=hdir, env=env, timeout=1800)
         if rc != 0:
             return gd, None, "go build of the harness failed (hooks or API of /repo changed?):\n" + out
     return gd, hb, ""
@@ -161,11 +183,17 @@ def modeleval(pid, obs_path):
 
 
 def load_known(pid):
+    """Open findings of this property from known_findings.json (committed; never written at run time)."""
     path = os.path.join(VERIF, "known_findings.json")
     if not os.path.exists(path):
         return []
-    data = json.load(open(path))
-    return [f for f in data.get("findings", []) if f.get("property") == pid and f.get("status", "open") == "open"]
+    found = list(json.load(open(path)).get("findings", []))
+    return [f for f in found if f.get("property") == pid and f.get("status", "open") == "open"]
+
+
+def load_corpus(pid):
+    d = os.path.join(VERIF, "corpus", pid)
+    return sorted(os.path.join(d, f) for f in os.listdir(d)) if os.path.isdir(d) else []
 
 
 class Report:
@@ -276,8 +304,8 @@ def standard_check(pid, tier, seed, harness_args=None, eval_prop=None, extra=Non
             return rep.finish()
         outdir = os.path.join(scratch, "out")
         work = os.path.join(scratch, "work")
-        cmd = [hb, "-prop", pid, "-goderive", gd, "-work", work, "-out", outdir, "-seed", str(seed), "-tier", tier,
-               "-corpus", os.path.join(VERIF, "corpus", pid)]
+        cmd = [hb, "-prop", pid, "-goderive", gd, "-repo", REPO, "-verif", VERIF, "-work", work, "-out", outdir,
+               "-seed", str(seed), "-tier", tier, "-corpus", os.path.join(VERIF, "corpus", pid)]
         cmd += harness_args or []
         rc, out = run(cmd, env=goenv(), timeout=6 * 3600)
         if rc != 0:
@@ -358,6 +386,22 @@ def main(argv, table):
         return 2
     pid, tier = argv[1], argv[2]
     seed = int(os.environ.get("VERIF_SEED", "1") or "1")
+    if tier == "--replay":
+        # a replay file records seed and tier; re-run that check
+        rp = json.load(open(argv[3]))
+        seed = int(rp.get("seed", seed))
+        m = re.search(r"bin/check \S+ (quick|thorough)", rp.get("replay_cmd", ""))
+        tier = m.group(1) if m else "quick"
+    if tier not in ("quick", "thorough"):
+        print("usage: check <ID> <quick|thorough>")
+        return 2
+    mod = os.path.join(VERIF, "lib", "checks", pid.lower() + ".py")
+    if os.path.exists(mod):
+        import importlib.util
+        spec = importlib.util.spec_from_file_location("check_" + pid.lower(), mod)
+        m = importlib.util.module_from_spec(spec)
+        spec.loader.exec_module(m)
+        return m.check(pid, tier, seed)
     if pid not in table:
         print("unknown property", pid)
         return 2
